@@ -441,7 +441,8 @@ func getOffer(header []byte, isAccepted func(spec, offer string, specParams head
 					delete(params, k)
 				}
 				fasthttp.VisitHeaderParams(accept[i:], func(key, value []byte) bool {
-					if len(key) == 1 && key[0] == 'q' {
+					// parameter names are case-insensitive (RFC 9110 section 5.6.6)
+					if len(key) == 1 && (key[0] == 'q' || key[0] == 'Q') {
 						if q, err := fasthttp.ParseUfloat(value); err == nil {
 							quality = q
 						}
